@@ -13,6 +13,7 @@ FINDING_DEV = {
     "KF-C13-02": "Epub!NestedTableGarbles",
     "KF-C13-03": "Xlsx!TableNameRowSkipped",
     "KF-C13-04": "Rtf!NeighbourTablesMerged",
+    "KF-C13-05": "Epub!CellInlineSpaced",
 }
 
 TABLE_FORMATS = {"docx", "odt", "html", "mhtml", "epub", "rtf", "pptx", "odp", "xlsx", "ods"}
